@@ -759,3 +759,23 @@ Definition eff_readTimeoutMs (o : woptions) : Z := dflt (o_readTimeoutMs o) 1000
 Definition eff_writeTimeoutMs (o : woptions) : Z := dflt (o_writeTimeoutMs o) 10000.
 Definition cfg_of_options (o : woptions) (asy : bool) (wt : option N) (retr : err -> bool) : config :=
   mkCfg (Z.to_nat (eff_batchSize o)) (Z.to_N (eff_batchBytes o)) (Z.to_nat (eff_maxAttempts o)) asy wt retr.
+
+(* ------------------------------------------------------------------------------------------
+   Deadlines of the Writer's round trips as functions of the options (writer.go):
+   produce()    : context.WithTimeout(…, w.writeTimeout()) and Client.Timeout = w.writeTimeout()
+   partitions() : builds a Client with Timeout = w.readTimeout() but calls
+                  client.transport().RoundTrip(ctx, …) directly, bypassing Client.roundTrip: the
+                  metadata lookup runs under the CALLER's context only; ReadTimeout feeds no
+                  deadline (the model mirrors the code that exists: None)
+   Compared with the deadline the RoundTripper actually sees (op pdl of harness/cmd/writer).
+   [timed_reaction]: what the client sees of a broker that applies the request and answers
+   after [delay] ms: the acknowledgement, iff it arrives before the produce deadline; otherwise
+   the attempt is abandoned with a deadline error (1005 in the interchange encoding, a
+   temporary error) although it was applied.  Real time enters the transition system only
+   through this choice of the reaction.
+   ------------------------------------------------------------------------------------------ *)
+Definition produce_deadline_ms (o : woptions) : Z := eff_writeTimeoutMs o.
+Definition metadata_deadline_ms (o : woptions) : option Z := None.
+Definition deadline_err : err := 1005%N.
+Definition timed_reaction (o : woptions) (delay : Z) : reaction :=
+  if Z.ltb delay (produce_deadline_ms o) then AppliedAcked else AppliedLost deadline_err.
